@@ -69,9 +69,10 @@ const polNsCfg = `
 
 // polLedger records every Get on a fake pool.
 type polLedger struct {
-	mu   sync.Mutex
-	gets []string // role of the pool of every Get, in order
-	exec []string // "role|sql" of every Execute
+	failExec bool // Execute records the statement and then fails (used where results would have to be merged)
+	mu       sync.Mutex
+	gets     []string // role of the pool of every Get, in order
+	exec     []string // "role|sql" of every Execute
 }
 
 func (l *polLedger) reset() {
@@ -108,21 +109,21 @@ func (p *polPool) Get(ctx context.Context) (backend.PooledConnect, error) {
 func (p *polPool) GetCheck(ctx context.Context) (backend.PooledConnect, error) {
 	return &polConn{pool: p}, nil
 }
-func (p *polPool) Put(pc backend.PooledConnect)          {}
-func (p *polPool) SetCapacity(capacity int) (err error)  { return nil }
-func (p *polPool) SetIdleTimeout(idle time.Duration)     {}
-func (p *polPool) StatsJSON() string                     { return "{}" }
-func (p *polPool) Capacity() int64                       { return 8 }
-func (p *polPool) Available() int64                      { return 8 }
-func (p *polPool) Active() int64                         { return 0 }
-func (p *polPool) InUse() int64                          { return 0 }
-func (p *polPool) MaxCap() int64                         { return 16 }
-func (p *polPool) WaitCount() int64                      { return 0 }
-func (p *polPool) WaitTime() time.Duration               { return 0 }
-func (p *polPool) IdleTimeout() time.Duration            { return time.Hour }
-func (p *polPool) IdleClosed() int64                     { return 0 }
-func (p *polPool) SetLastChecked()                       {}
-func (p *polPool) GetLastChecked() int64                 { return time.Now().Unix() }
+func (p *polPool) Put(pc backend.PooledConnect)         {}
+func (p *polPool) SetCapacity(capacity int) (err error) { return nil }
+func (p *polPool) SetIdleTimeout(idle time.Duration)    {}
+func (p *polPool) StatsJSON() string                    { return "{}" }
+func (p *polPool) Capacity() int64                      { return 8 }
+func (p *polPool) Available() int64                     { return 8 }
+func (p *polPool) Active() int64                        { return 0 }
+func (p *polPool) InUse() int64                         { return 0 }
+func (p *polPool) MaxCap() int64                        { return 16 }
+func (p *polPool) WaitCount() int64                     { return 0 }
+func (p *polPool) WaitTime() time.Duration              { return 0 }
+func (p *polPool) IdleTimeout() time.Duration           { return time.Hour }
+func (p *polPool) IdleClosed() int64                    { return 0 }
+func (p *polPool) SetLastChecked()                      {}
+func (p *polPool) GetLastChecked() int64                { return time.Now().Unix() }
 
 type polConn struct {
 	pool   *polPool
@@ -143,7 +144,11 @@ func (c *polConn) UseDB(db string) error {
 func (c *polConn) Execute(sql string, maxRows int) (*mysql.Result, error) {
 	c.pool.ledger.mu.Lock()
 	c.pool.ledger.exec = append(c.pool.ledger.exec, c.pool.role+"|"+sql)
+	fail := c.pool.ledger.failExec
 	c.pool.ledger.mu.Unlock()
+	if fail {
+		return nil, fmt.Errorf("verif: fake backend refuses to execute")
+	}
 	return polEmptyResult(), nil
 }
 func (c *polConn) ExecuteWithTimeout(sql string, maxRows int, timeout time.Duration) (*mysql.Result, error) {
@@ -357,7 +362,7 @@ func polRecase(s, cs string) string {
 		if ch == '\'' {
 			inQuote = !inQuote
 		}
-		if !inQuote && ch >= 'A' && ch <= 'Z' {
+		if !inQuote && ch >= 'A' && ch <= 'Z' && (i == 0 || (s[i-1] != '@' && s[i-1] != '.')) {
 			j := i
 			for j < len(s) && ((s[j] >= 'A' && s[j] <= 'Z') || s[j] == '_') {
 				j++
@@ -397,10 +402,14 @@ func polRender(c *polCase) (sql string, nparams int, err error) {
 		body = "SELECT @@read_only"
 	case "gvar":
 		body = "SELECT @@global.read_only"
+	case "var_upper":
+		body = "SELECT @@READ_ONLY"
 	case "mixvar":
 		body = "SELECT 'a', @@read_only, 'b'"
 	case "show":
 		body = "SHOW VARIABLES LIKE 'read_only'"
+	case "show_upper":
+		body = "SHOW VARIABLES LIKE 'READ_ONLY'"
 	case "gshow":
 		body = "SHOW GLOBAL VARIABLES LIKE 'read_only'"
 	default:
@@ -561,11 +570,11 @@ func polExec(f *polFixture, se *SessionExecutor, c *polCase, sql string, nparams
 	case "", "query":
 		return query(sql)
 	case "multi_first":
-		return query(sql + "; set @verif_b = 2")
+		return query(sql + polPieceEnd(c) + "; set @verif_b = 2")
 	case "multi_last":
 		return query("set @verif_b = 2; " + sql)
 	case "multi_mid":
-		return query("set @verif_b = 2; " + sql + "; set @verif_c = 3")
+		return query("set @verif_b = 2; " + sql + polPieceEnd(c) + "; set @verif_c = 3")
 	case "prepared":
 		se.session.c.hasRecycledReadPacket.Set(true)
 		r := se.ExecuteCommand(mysql.ComStmtPrepare, []byte(sql))
@@ -597,6 +606,14 @@ func polExec(f *polFixture, se *SessionExecutor, c *polCase, sql string, nparams
 		return polRespErr(se.ExecuteCommand(mysql.ComStmtExecute, data))
 	}
 	return "harness: unknown channel " + c.Chan
+}
+
+// polPieceEnd ends a trailing line comment so that the next piece of a multi-statement text is not part of it.
+func polPieceEnd(c *polCase) string {
+	if c.Trail == "dash" || c.Trail == "hash" {
+		return "\n"
+	}
+	return ""
 }
 
 func polRunCase(f *polFixture, c *polCase) (*polObs, error) {
@@ -684,6 +701,9 @@ func TestVerifStmtPolicy(t *testing.T) {
 			outcome = "error"
 		}
 		counts[c.Expect+"/"+outcome]++
+		if !c.Ro {
+			counts["ctl/"+c.Kind+"/"+outcome]++
+		}
 		res := &verifkit.Result{Case: i, Obs: o}
 		switch o.Class {
 		case "reject-violated":
@@ -706,5 +726,504 @@ func TestVerifStmtPolicy(t *testing.T) {
 	out.Close(n, extra)
 }
 
-var _ = parser.Preview
-var _ = plan.NewChecker
+// ------------------------------------------------------------------------------------------------
+// C06: token pre-check versus parser based analysis
+// ------------------------------------------------------------------------------------------------
+
+type unRef struct {
+	Cls   string `json:"cls"`
+	Cs    string `json:"cs"`
+	Qual  string `json:"qual"`
+	Bq    bool   `json:"bq"`
+	Glue  string `json:"glue"`
+	Pos   string `json:"pos"`
+	Alias bool   `json:"alias"`
+}
+
+type unCase struct {
+	Kind    string  `json:"kind"`
+	Dbset   bool    `json:"dbset"`
+	Refs    []unRef `json:"refs"`
+	Sharded bool    `json:"sharded"` // ParserSaysSharded(d), from TLC
+}
+
+type unObs struct {
+	Case          unCase   `json:"case"`
+	SQL           string   `json:"sql"`
+	ParseErr      string   `json:"parse_err,omitempty"`
+	ParserSharded bool     `json:"parser_sharded"`
+	DbInvalid     bool     `json:"db_invalid,omitempty"`
+	Plan          string   `json:"plan"`
+	Fast          bool     `json:"fast"`
+	Forwarded     bool     `json:"forwarded_unrewritten"`
+	Execs         []string `json:"execs,omitempty"`
+}
+
+func unName(r *unRef, nplain *int) string {
+	var name string
+	switch r.Cls {
+	case "sharded":
+		name = "tbl_ks"
+	case "linked":
+		name = "tbl_ks_child"
+	case "global":
+		name = "tbl_global"
+	default:
+		*nplain++
+		name = fmt.Sprintf("t%d", *nplain)
+	}
+	switch r.Cs {
+	case "upper":
+		name = strings.ToUpper(name)
+	case "mixed":
+		b := []byte(name)
+		for i := 0; i < len(b); i += 2 {
+			if b[i] >= 'a' && b[i] <= 'z' {
+				b[i] -= 32
+			}
+		}
+		name = string(b)
+	}
+	q := func(x string) string {
+		if r.Bq {
+			return "`" + x + "`"
+		}
+		return x
+	}
+	switch r.Qual {
+	case "db":
+		return q("db_ks") + "." + q(name)
+	case "other":
+		return q("db_other") + "." + q(name)
+	}
+	return q(name)
+}
+
+// unAttach renders "<keyword-or-comma><gap><name>[ alias]<gap after>" for one reference.
+// before is the text that precedes the name (e.g. "from", "join", ","), after is what follows ("" at the end).
+func unAttach(before string, r *unRef, name, alias, after string) (string, error) {
+	pre := " "
+	post := " "
+	switch r.Glue {
+	case "", "none":
+	case "cmt_before":
+		pre = "/**/"
+	case "spcmt_before":
+		pre = " /* c */ "
+	case "nl_before":
+		pre = "\n"
+	case "tab_before":
+		pre = "\t"
+	case "cmt_after":
+		post = "/**/ "
+	case "nl_after":
+		post = "\n"
+	case "paren_after":
+		post = ""
+	default:
+		return "", fmt.Errorf("unknown glue %q", r.Glue)
+	}
+	s := before + pre + name
+	if r.Alias && alias != "" {
+		s += " " + alias
+		post = " "
+	}
+	if after == "" {
+		if r.Glue == "cmt_after" {
+			return s + "/**/", nil
+		}
+		return s, nil
+	}
+	return s + post + after, nil
+}
+
+func unRender(c *unCase) (string, error) {
+	if len(c.Refs) == 0 {
+		return "", fmt.Errorf("no table reference")
+	}
+	nplain := 0
+	names := make([]string, len(c.Refs))
+	for i := range c.Refs {
+		names[i] = unName(&c.Refs[i], &nplain)
+	}
+	alias := func(i int) string { return fmt.Sprintf("x%d", i+1) }
+	var fromItems, subqs, unions []int
+	for i := 1; i < len(c.Refs); i++ {
+		switch c.Refs[i].Pos {
+		case "comma", "join":
+			fromItems = append(fromItems, i)
+		case "subq":
+			subqs = append(subqs, i)
+		case "from2":
+			unions = append(unions, i)
+		default:
+			return "", fmt.Errorf("ref %d: position %q", i, c.Refs[i].Pos)
+		}
+	}
+	// table list: first reference introduced by `intro`, further ones by "," or "join"
+	tableList := func(intro string, end string) (string, error) {
+		out := ""
+		prev := intro
+		idx := append([]int{0}, fromItems...)
+		for n, i := range idx {
+			r := &c.Refs[i]
+			last := n == len(idx)-1
+			next := end
+			if !last {
+				if c.Refs[idx[n+1]].Pos == "join" {
+					next = "join"
+				} else {
+					next = ","
+				}
+			}
+			if r.Pos == "join" {
+				// join needs its ON condition before whatever follows
+				seg, err := unAttach(prev, r, names[i], alias(i), "on 1 = 1")
+				if err != nil {
+					return "", err
+				}
+				out += seg
+				if next == "," {
+					prev = ","
+				} else if next == "" {
+					prev = ""
+				} else {
+					prev = " " + next
+				}
+				if last && end != "" {
+					out += " " + end
+				}
+				continue
+			}
+			if next == "," {
+				// "a, b": the comma is glued to the preceding name, the gap follows it
+				seg, err := unAttach(prev, r, names[i], alias(i), "")
+				if err != nil {
+					return "", err
+				}
+				out += seg
+				prev = ","
+				continue
+			}
+			seg, err := unAttach(prev, r, names[i], alias(i), next)
+			if err != nil {
+				return "", err
+			}
+			out += seg
+			if next == "join" {
+				out = strings.TrimSuffix(out, "join")
+				prev = "join"
+			} else {
+				prev = ""
+			}
+		}
+		return out, nil
+	}
+	tail := ""
+	for _, i := range subqs {
+		seg, err := unAttach(" and id in (select id from", &c.Refs[i], names[i], alias(i), "")
+		if err != nil {
+			return "", err
+		}
+		tail += seg + ")"
+	}
+	for _, i := range unions {
+		seg, err := unAttach(" union select * from", &c.Refs[i], names[i], alias(i), "")
+		if err != nil {
+			return "", err
+		}
+		tail += seg
+	}
+	switch c.Kind {
+	case "select":
+		tl, err := tableList("select * from", "where 1 = 1")
+		if err != nil {
+			return "", err
+		}
+		return tl + tail, nil
+	case "delete":
+		if len(fromItems) > 0 {
+			c.Refs[0].Alias = true
+			tl, err := tableList("delete x1 from", "where 1 = 1")
+			if err != nil {
+				return "", err
+			}
+			return tl + tail, nil
+		}
+		tl, err := tableList("delete from", "where id = 1")
+		if err != nil {
+			return "", err
+		}
+		return tl + tail, nil
+	case "update":
+		tl, err := tableList("update", "set c_a = 'x' where 1 = 1")
+		if err != nil {
+			return "", err
+		}
+		return tl + tail, nil
+	case "insert", "replace":
+		if len(fromItems) > 0 || len(subqs) > 0 {
+			return "", fmt.Errorf("%s takes only from2 references", c.Kind)
+		}
+		if len(unions) > 0 {
+			seg, err := unAttach(c.Kind+" into", &c.Refs[0], names[0], "", "(id, name)")
+			if err != nil {
+				return "", err
+			}
+			i := unions[0]
+			sel, err := unAttach(" select id, name from", &c.Refs[i], names[i], alias(i), "")
+			if err != nil {
+				return "", err
+			}
+			rest := ""
+			for _, j := range unions[1:] {
+				s2, err := unAttach(" union select id, name from", &c.Refs[j], names[j], alias(j), "")
+				if err != nil {
+					return "", err
+				}
+				rest += s2
+			}
+			return seg + sel + rest, nil
+		}
+		return unAttach(c.Kind+" into", &c.Refs[0], names[0], "", "(id, name) values (1, 'a')")
+	}
+	return "", fmt.Errorf("unknown kind %q", c.Kind)
+}
+
+func unRunCase(f *polFixture, c *unCase) (*unObs, error) {
+	sql, err := unRender(c)
+	if err != nil {
+		return nil, err
+	}
+	db := ""
+	if c.Dbset {
+		db = "db_ks"
+	}
+	o := &unObs{Case: *c, SQL: sql}
+	se := f.newSession("u_rw", db)
+	ns := se.GetNamespace()
+	// reference: the parser based analysis (plan.Checker as used by plan.BuildPlan)
+	stmt, perr := se.Parse(sql)
+	if perr != nil {
+		o.ParseErr = perr.Error()
+	} else {
+		ck := plan.NewChecker(db, ns.GetRouter())
+		stmt.Accept(ck)
+		o.ParserSharded = ck.IsShard()
+		o.DbInvalid = ck.IsDatabaseInvalid()
+		pan, msg, _ := verifkit.Catch(func() {
+			p, err := plan.BuildPlan(stmt, ns.GetPhysicalDBs(), db, sql, ns.GetRouter(), ns.GetSequences(), nil)
+			if err != nil {
+				o.Plan = "error: " + err.Error()
+			} else {
+				o.Plan = fmt.Sprintf("%T", p)
+			}
+		})
+		if pan {
+			o.Plan = "panic: " + msg
+		}
+	}
+	// the pre-check as doQuery/getPlan calls it
+	reqCtx := util.NewRequestContext()
+	reqCtx.SetStmtType(parser.Preview(sql))
+	pan, msg, _ := verifkit.Catch(func() { _, o.Fast = se.preBuildUnshardPlan(reqCtx, db, sql) })
+	if pan {
+		return nil, fmt.Errorf("preBuildUnshardPlan panicked: %s", msg)
+	}
+	// end to end: is the original text forwarded unrewritten?
+	f.ledger.reset()
+	f.ledger.failExec = true
+	se2 := f.newSession("u_rw", db)
+	se2.session.c.hasRecycledReadPacket.Set(true)
+	verifkit.Catch(func() { se2.ExecuteCommand(mysql.ComQuery, []byte(sql)) })
+	f.ledger.failExec = false
+	_, execs := f.ledger.snapshot()
+	for _, e := range execs {
+		if i := strings.IndexByte(e, '|'); i >= 0 && e[i+1:] == sql {
+			o.Forwarded = true
+		}
+	}
+	if len(execs) > 4 {
+		execs = execs[:4]
+	}
+	o.Execs = execs
+	return o, nil
+}
+
+func TestVerifUnshardPrecheck(t *testing.T) {
+	out, err := verifkit.OpenOut()
+	if err != nil {
+		t.Fatal(err)
+	}
+	f, err := polNewFixture(nil)
+	if err != nil {
+		t.Fatal(err)
+	}
+	defer f.close()
+	all := os.Getenv("VERIF_POLICY_ALL") == "1"
+	counts := map[string]int{}
+	n, err := verifkit.EachCase(func(i int, raw json.RawMessage) error {
+		var c unCase
+		if err := json.Unmarshal(raw, &c); err != nil {
+			return err
+		}
+		o, err := unRunCase(f, &c)
+		if err != nil {
+			return fmt.Errorf("case %d: %v", i, err)
+		}
+		res := &verifkit.Result{Case: i, Obs: o}
+		switch {
+		case o.ParseErr != "":
+			counts["unparsable"]++
+			res.Dev("C06 harness unparsable", "rendered text does not parse: %q: %s", o.SQL, o.ParseErr)
+		case o.ParserSharded != c.Sharded:
+			counts["model-mismatch"]++
+			res.Dev("C06 model-mismatch", "specification says sharded=%v, plan.Checker says %v for %q", c.Sharded, o.ParserSharded, o.SQL)
+		case c.Sharded && (o.Fast || o.Forwarded):
+			counts["sharded/fast"]++
+			res.Dev("C06 fast-path", "parser based analysis: sharded (%s); pre-check: fast=%v forwarded-unrewritten=%v: %q", o.Plan, o.Fast, o.Forwarded, o.SQL)
+		case c.Sharded:
+			counts["sharded/full"]++
+		case o.Fast:
+			counts["unsharded/fast"]++
+		default:
+			counts["unsharded/full"]++
+		}
+		if o.Fast != o.Forwarded {
+			counts["fast!=forwarded"]++
+		}
+		if len(res.Devs) > 0 || all {
+			out.Write(res)
+		}
+		return nil
+	})
+	if err != nil {
+		t.Fatal(err)
+	}
+	extra := map[string]interface{}{}
+	for k, v := range counts {
+		extra["n:"+k] = v
+	}
+	out.Close(n, extra)
+}
+
+// ------------------------------------------------------------------------------------------------
+// C36: SQL blacklist
+// ------------------------------------------------------------------------------------------------
+
+type blCase struct {
+	T        string     `json:"t"` // "blacklist" | "case"
+	Stmts    [][]string `json:"stmts,omitempty"`
+	Base     int        `json:"base"`
+	Mutant   string     `json:"mutant"`
+	Stmt     string     `json:"stmt"`
+	Cs       string     `json:"cs"`
+	Gap      string     `json:"gap"`
+	Lit      int        `json:"lit"`
+	Cm       string     `json:"cm"`
+	Cmpos    int        `json:"cmpos"`
+	Poscls   string     `json:"poscls"`
+	Items    []string   `json:"items"`
+	Rejected bool       `json:"rejected"` // Rejected(text, Blacklist), from TLC
+}
+
+type blObs struct {
+	Case        blCase `json:"case"`
+	SQL         string `json:"sql"`
+	Rejected    bool   `json:"rejected"`     // checkSQLAllowed returned the blacklist error
+	RejectedE2E bool   `json:"rejected_e2e"` // ExecuteCommand answered with the blacklist error and took no connection
+	Fingerprint string `json:"fingerprint"`
+	Err         string `json:"err,omitempty"`
+}
+
+func TestVerifBlacklist(t *testing.T) {
+	out, err := verifkit.OpenOut()
+	if err != nil {
+		t.Fatal(err)
+	}
+	var f *polFixture
+	defer func() {
+		if f != nil {
+			f.close()
+		}
+	}()
+	all := os.Getenv("VERIF_POLICY_ALL") == "1"
+	counts := map[string]int{}
+	n, err := verifkit.EachCase(func(i int, raw json.RawMessage) error {
+		var c blCase
+		if err := json.Unmarshal(raw, &c); err != nil {
+			return err
+		}
+		if c.T == "blacklist" {
+			if f != nil {
+				return fmt.Errorf("case %d: second blacklist", i)
+			}
+			var bl []string
+			for _, items := range c.Stmts {
+				bl = append(bl, strings.Join(items, ""))
+			}
+			f, err = polNewFixture(bl)
+			if err != nil {
+				return err
+			}
+			if len(f.ns.sqls) != len(bl) {
+				return fmt.Errorf("namespace holds %d blacklist fingerprints for %d statements", len(f.ns.sqls), len(bl))
+			}
+			return nil
+		}
+		if f == nil {
+			return fmt.Errorf("case %d before the blacklist", i)
+		}
+		sql := strings.Join(c.Items, "")
+		o := &blObs{Case: c, SQL: sql, Fingerprint: mysql.GetFingerprint(sql)}
+		o.Case.Items = nil
+		se := f.newSession("u_rw", "db_ks")
+		reqCtx := util.NewRequestContext()
+		pan, msg, _ := verifkit.Catch(func() {
+			if e := se.checkSQLAllowed(reqCtx, sql); e != nil {
+				o.Err = e.Error()
+				o.Rejected = strings.Contains(e.Error(), "sql in blacklist")
+			}
+		})
+		if pan {
+			o.Err = "panic: " + msg
+		}
+		f.ledger.reset()
+		f.ledger.failExec = true
+		se2 := f.newSession("u_rw", "db_ks")
+		se2.session.c.hasRecycledReadPacket.Set(true)
+		verifkit.Catch(func() {
+			e := polRespErr(se2.ExecuteCommand(mysql.ComQuery, []byte(sql)))
+			gets, _ := f.ledger.snapshot()
+			o.RejectedE2E = strings.Contains(e, "sql in blacklist") && len(gets) == 0
+		})
+		f.ledger.failExec = false
+		res := &verifkit.Result{Case: i, Obs: o}
+		got := o.Rejected || o.RejectedE2E
+		both := o.Rejected && o.RejectedE2E
+		switch {
+		case c.Rejected && !both:
+			counts["must-reject/allowed"]++
+			res.Dev("C36 not-rejected", "differs from a blacklisted statement only in literals/spacing/case/comments but is allowed (check=%v e2e=%v): %q fingerprint %q", o.Rejected, o.RejectedE2E, sql, o.Fingerprint)
+		case !c.Rejected && got:
+			counts["must-allow/rejected"]++
+			res.Dev("C36 wrongly-rejected", "differs structurally from every blacklisted statement but is rejected: %q fingerprint %q", sql, o.Fingerprint)
+		case c.Rejected:
+			counts["must-reject/rejected"]++
+		default:
+			counts["must-allow/allowed"]++
+		}
+		if len(res.Devs) > 0 || all {
+			out.Write(res)
+		}
+		return nil
+	})
+	if err != nil {
+		t.Fatal(err)
+	}
+	extra := map[string]interface{}{}
+	for k, v := range counts {
+		extra["n:"+k] = v
+	}
+	out.Close(n, extra)
+}
